@@ -289,7 +289,11 @@ def marker_shard(args):
         close = "{% endif %}" if "{% if true %}" in pre else ""
         kind = r.random()
         if kind < 0.45:
-            e = r.choice([g.e_str(), g.e_str(), "ml", "s", "''", g.e_int(), "ml|upper", "strs|join('\\n')", "b", '"x\\n\\ny\\n"', '"\\n"', '"one"'])
+            e = r.choice([g.e_str(), g.e_str(), "ml", "s", "''", g.e_int(), "ml|upper", "strs|join('\\n')", "b", '"x\\n\\ny\\n"', '"\\n"', '"one"',
+                          # values with characters that escaping touches: plain strings, safe markup from a filter, a macro call, a context value
+                          '"<b>&\\n<i>\'q\'"', '"<b>&\\n<i>"|safe', "hello3()", "mk", "esc", "(mk ~ esc)", "hello3()|upper"])
+            if r.random() < 0.5 and any(x in e for x in ("<", "hello3", "mk", "esc")):
+                opts["autoescape"] = True
             marked, plain = "{{* %s }}" % e, "{{ %s }}" % e
         elif kind < 0.6:
             body = g.body(1) + r.choice(["", "\nline2\n", "{{ ml }}"])
@@ -308,10 +312,12 @@ def marker_shard(args):
         else:
             marked = "{%%* call hello2() %%}%s{%% endcall %%}" % "in\ncall\n"
             plain = "{%% call hello2() %%}%s{%% endcall %%}" % "in\ncall\n"
-        macro = "{% macro hello2() %}[{{ caller() }}]\n  m2\n{% endmacro %}"
+        macro = "{% macro hello2() %}[{{ caller() }}]\n  m2\n{% endmacro %}{% macro hello3() %}<b>&amp;</b>\n<i>'q'</i>{% endmacro %}"
         if "without context" in marked:   # upstream quirk: include-without-context escapes an enclosing filter block in both engines
             continue
         c = context(r)
+        c["mk"] = bund.Markup("<p>&amp;</p>\n<q a=\"1\">")
+        c["esc"] = "<r>&'\"\n</r>"
         S1, S2 = "\x01", "\x02"
         tm_marked = dict(LIB, main=macro + pre + S1 + w + marked + S2 + post + close)
         tm_plain = dict(LIB, main=macro + pre + S1 + plain + S2 + post + close)
